@@ -141,7 +141,8 @@ def render_tree(tree):
 def restyle(text, k):
     """The same XML document in another spelling (bits of k): CRLF line ends, XML comments between elements,
     attributes in reverse order, single-quoted attributes, <x></x> instead of <x/>, a byte order mark, no XML
-    declaration. Returns text to be written with newline=''. Raises AssertionError if the re-parsed document
+    declaration; bits 7-8: declared character encoding (UTF-8, windows-1252, UTF-16, ISO-8859-1 - the latter ones
+    only when every character fits). Returns the BYTES of the file. Raises AssertionError if the re-parsed document
     differs from the original one (harness self-check)."""
     from xml.etree import ElementTree as ET
     root = ET.fromstring(text)
@@ -185,9 +186,18 @@ def restyle(text, k):
     assert a[:3] == b[:3] and a[4] == b[4], "restyle changed the document"
     if crlf:
         res = res.replace("\n", "\r\n")
+    enc = ("utf-8", "windows-1252", "utf-16", "iso-8859-1")[(k >> 7) & 3]
+    if enc != "utf-8":
+        try:
+            body = res.split("?>", 1)[1] if not nodecl else res
+            data = ('<?xml version="1.0" encoding="%s"?>' % enc.upper() + body).encode(enc)
+            assert norm(ET.fromstring(data))[:3] == a[:3]
+            return data
+        except UnicodeEncodeError:
+            pass
     if bom:
         res = "\ufeff" + res
-    return res
+    return res.encode("utf-8")
 
 
 # ----------------------------------------------------------------------------------------
